@@ -19,4 +19,51 @@ static inline int spec_toon_unescape_step(int* st, int c)
 }
 /* scanner of a row of delimited values */
 enum spec_toon_row_state { ROW_START = 0, ROW_UNQ = 1, ROW_INQ = 2, ROW_ESC = 3, ROW_AFTER = 4, ROW_BAD = 5 };
+/* Number look-alikes.  TOON specification, "Quoting rules for string values": an encoder MUST quote a string that is numeric-like, i.e. matches
+ *   /^-?\d+(?:\.\d+)?(?:e[+-]?\d+)?$/i   (or has a forbidden leading zero, /^0\d+$/);   "Decoding: an unquoted token is a number only if it matches the
+ * numeric pattern", otherwise it is a string.  For the round trip decode(encode(v)) == v what matters is one direction on each side:
+ *   reader:  token taken as a number  ==>  token in M            encoder:  string in M  ==>  string is quoted
+ * for some interface language M.  M is taken a little wider than the specification's pattern (integer part optional, as in ".5" and "e5"; integer part
+ * without leading zeros), so that a reader that is more liberal than the specification about a missing integer part is not reported as long as the encoder
+ * quotes those strings too:
+ *   M = -? ( 0 | [1-9][0-9]* )? ( . [0-9]+ )? ( [eE] [+-]? [0-9]+ )?      with at least one digit.
+ * One step of the DFA of M: */
+enum spec_toon_num_state { TM_START = 0, TM_NEG, TM_ZERO, TM_INT, TM_DOT, TM_FRAC, TM_E, TM_ESIGN, TM_EXP, TM_REJ };
+static inline int spec_toon_is_digit(int c) { return c >= '0' && c <= '9'; }
+static inline int spec_toon_numlike_step(int q, int c)
+{
+    c &= 0xff;
+    switch (q) {
+    case TM_START: case TM_NEG:
+        if (q == TM_START && c == '-') return TM_NEG;
+        if (c == '0') return TM_ZERO; if (c >= '1' && c <= '9') return TM_INT; if (c == '.') return TM_DOT; if (c == 'e' || c == 'E') return TM_E; return TM_REJ;
+    case TM_ZERO: if (c == '.') return TM_DOT; if (c == 'e' || c == 'E') return TM_E; return TM_REJ;
+    case TM_INT: if (spec_toon_is_digit(c)) return TM_INT; if (c == '.') return TM_DOT; if (c == 'e' || c == 'E') return TM_E; return TM_REJ;
+    case TM_DOT: return spec_toon_is_digit(c) ? TM_FRAC : TM_REJ;
+    case TM_FRAC: if (spec_toon_is_digit(c)) return TM_FRAC; if (c == 'e' || c == 'E') return TM_E; return TM_REJ;
+    case TM_E: if (c == '+' || c == '-') return TM_ESIGN; return spec_toon_is_digit(c) ? TM_EXP : TM_REJ;
+    case TM_ESIGN: return spec_toon_is_digit(c) ? TM_EXP : TM_REJ;
+    case TM_EXP: return spec_toon_is_digit(c) ? TM_EXP : TM_REJ;
+    default: return TM_REJ;
+    }
+}
+static inline int spec_toon_numlike_accepting(int q) { return q == TM_ZERO || q == TM_INT || q == TM_FRAC || q == TM_EXP; }
+/* Plain decimal numbers, the form in which an encoder writes every finite number ("Numbers: canonical decimal form, no exponent"):
+ *   P = -? ( 0 | [1-9][0-9]* ) ( . [0-9]+ )?          A reader must take every token in P as a number. */
+enum spec_toon_plain_state { TP_START = 0, TP_NEG, TP_ZERO, TP_INT, TP_DOT, TP_FRAC, TP_REJ };
+static inline int spec_toon_plain_step(int q, int c)
+{
+    c &= 0xff;
+    switch (q) {
+    case TP_START: case TP_NEG:
+        if (q == TP_START && c == '-') return TP_NEG;
+        if (c == '0') return TP_ZERO; if (c >= '1' && c <= '9') return TP_INT; return TP_REJ;
+    case TP_ZERO: return c == '.' ? TP_DOT : TP_REJ;
+    case TP_INT: if (spec_toon_is_digit(c)) return TP_INT; return c == '.' ? TP_DOT : TP_REJ;
+    case TP_DOT: return spec_toon_is_digit(c) ? TP_FRAC : TP_REJ;
+    case TP_FRAC: return spec_toon_is_digit(c) ? TP_FRAC : TP_REJ;
+    default: return TP_REJ;
+    }
+}
+static inline int spec_toon_plain_accepting(int q) { return q == TP_ZERO || q == TP_INT || q == TP_FRAC; }
 #endif
